@@ -185,6 +185,13 @@ func (*localExecutor) HandleDebug(*http.ServeMux) {}
 // task buffer. If the output is partitioned, bufferOutput invokes
 // the task's partitioner in order to determine the correct partition.
 func bufferOutput(ctx context.Context, task *Task, out sliceio.Reader) (buf taskBuffer, err error) {
+	defer func() {
+		if e := recover(); e != nil {
+			stack := debug.Stack()
+			err = fmt.Errorf("panic while evaluating slice: %v\n%s", e, string(stack))
+			err = errors.E(err, errors.Fatal)
+		}
+	}()
 	if task.NumOut() == 0 {
 		_, err = out.Read(ctx, frame.Empty)
 		if err == sliceio.EOF {
@@ -194,13 +201,6 @@ func bufferOutput(ctx context.Context, task *Task, out sliceio.Reader) (buf task
 	}
 	buf = make(taskBuffer, task.NumPartition)
 	var in frame.Frame
-	defer func() {
-		if e := recover(); e != nil {
-			stack := debug.Stack()
-			err = fmt.Errorf("panic while evaluating slice: %v\n%s", e, string(stack))
-			err = errors.E(err, errors.Fatal)
-		}
-	}()
 	shards := make([]int, *defaultChunksize)
 	for {
 		if in.IsZero() {
